@@ -185,10 +185,20 @@ def gen_price_case(rng):
     pname = "PricePer" + cls
     ops.append(["decl_class", pname, f"c:Money^1;c:{cls}^-1", "-", "0", "-"])
     xu = rng.choice(xunits)
-    for cur in codes:
-        ops.append(["derive_unit", pname, f"{cur},{xu}", "-"])
     nsetup = len(ops)
     expect = []
+    # attempted BEFORE the price units exist (the type does, but it has no
+    # reference unit: only a declared unit defines the result) ...
+    early = []
+    for cur in codes[:2]:
+        o = ["q_bin", "div", f"12@{cur}", f"3@{xu}", MODE]
+        ops.append(o); expect.append("err UndefinedResultError"); early.append((o, cur))
+    for cur in codes:
+        ops.append(["derive_unit", pname, f"{cur},{xu}", "-"])
+        expect.append(f"ok {cur}/{xu}")
+    # ... and again once they are declared
+    for o, cur in early:
+        ops.append(list(o)); expect.append(f"ok qty 4/1@{cur}/{xu}:{pname}")
     order = [rng.choice(codes) for _ in range(8)] + codes
     for cur in order:
         a = Fraction(rng.randint(1, 9999), rng.choice([1, 4, 100]))
